@@ -22,7 +22,7 @@ BUDGET_S = {"quick": 900, "thorough": 3600}
 
 CONTRACTS = ["geometric_names_all_enabled", "intensity_names_all_enabled", "data_args_reach_their_place_a", "data_args_reach_their_place_b", "trainer_args_reach_their_place_a",
              "trainer_args_reach_their_place_b", "trainer_args_reach_their_place_c", "trainer_args_reach_their_place_d", "backbone_dict_reaches_its_place_a", "normalisation_is_idempotent",
-             "backbone_presets_do_not_share_state", "head_presets_do_not_share_state"]
+             "backbone_presets_do_not_share_state", "head_presets_do_not_share_state", "scheduler_dict_reaches_its_place"]
 
 
 def bounds(tier):
